@@ -7,9 +7,43 @@
 #include <dlfcn.h>
 #include <fcntl.h>
 #include <sys/mman.h>
+#include <sys/stat.h>
 #include <sys/syscall.h>
 #include <sys/uio.h>
 #include <unistd.h>
+
+// The shared state of the simulated disk is touched by whichever simulated client does file I/O. Only one of them
+// runs at any time (the scheduler hands a single token around), but ThreadSanitizer cannot know that, and it sees
+// this file's memcpy/memcmp/new/delete calls through its libc interceptors. Its own annotations switch the
+// reporting off for the duration of a file-layer call, without adding an ordering between the clients.
+extern "C" {
+  void AnnotateIgnoreReadsBegin(const char *, int) __attribute__((weak));
+  void AnnotateIgnoreReadsEnd(const char *, int) __attribute__((weak));
+  void AnnotateIgnoreWritesBegin(const char *, int) __attribute__((weak));
+  void AnnotateIgnoreWritesEnd(const char *, int) __attribute__((weak));
+}
+namespace
+{
+  struct NoRace
+  {
+    NoRace()
+    {
+      if (AnnotateIgnoreReadsBegin && AnnotateIgnoreWritesBegin)
+        {
+          AnnotateIgnoreReadsBegin(__FILE__, __LINE__);
+          AnnotateIgnoreWritesBegin(__FILE__, __LINE__);
+        }
+    }
+    ~NoRace()
+    {
+      if (AnnotateIgnoreReadsEnd && AnnotateIgnoreWritesEnd)
+        {
+          AnnotateIgnoreWritesEnd(__FILE__, __LINE__);
+          AnnotateIgnoreReadsEnd(__FILE__, __LINE__);
+        }
+    }
+  };
+}
 
 namespace simfs
 {
@@ -107,6 +141,7 @@ namespace simfs
 
   void reset()
   {
+    NoRace norace_;
     for (auto &o : open_files())
       syscall(SYS_close, o.first);
     open_files().clear();
@@ -119,12 +154,14 @@ namespace simfs
 
   void put(const std::string &path, const std::string &bytes)
   {
+    NoRace norace_;
     enabled = true;
     disk()[path] = bytes;
   }
 
   bool get(const std::string &path, std::string &bytes)
   {
+    NoRace norace_;
     auto it = disk().find(path);
     if (it == disk().end())
       return false;
@@ -134,11 +171,13 @@ namespace simfs
 
   bool exists(const std::string &path)
   {
+    NoRace norace_;
     return disk().count(path) != 0;
   }
 
   std::vector<std::string> list()
   {
+    NoRace norace_;
     std::vector<std::string> r;
     for (auto &e : disk())
       r.push_back(e.first);
@@ -147,12 +186,14 @@ namespace simfs
 
   void set_faults(const std::vector<Fault> &f)
   {
+    NoRace norace_;
     faults() = f;
     open_count().clear();
   }
 
   std::vector<Fault> take_faults()
   {
+    NoRace norace_;
     std::vector<Fault> r;
     r.swap(faults());
     return r;
@@ -160,6 +201,7 @@ namespace simfs
 
   void clear_effects()
   {
+    NoRace norace_;
     effects_v().clear();
   }
 
@@ -170,11 +212,13 @@ namespace simfs
 
   unsigned long calls()
   {
+    NoRace norace_;
     return n_calls;
   }
 
   unsigned open_descriptors()
   {
+    NoRace norace_;
     return static_cast<unsigned>(open_files().size());
   }
 
@@ -310,6 +354,7 @@ using namespace simfs;
 
 extern "C" FILE *fopen64(const char *path, const char *mode)
 {
+  NoRace norace_;
   if (simulated_path(path, mode && (mode[0] == 'w' || mode[0] == 'a')))
     return sim_open(path, mode);
   return real_fopen64()(path, mode);
@@ -317,6 +362,7 @@ extern "C" FILE *fopen64(const char *path, const char *mode)
 
 extern "C" FILE *fopen(const char *path, const char *mode)
 {
+  NoRace norace_;
   if (simulated_path(path, mode && (mode[0] == 'w' || mode[0] == 'a')))
     return sim_open(path, mode);
   return real_fopen64()(path, mode);
@@ -324,6 +370,7 @@ extern "C" FILE *fopen(const char *path, const char *mode)
 
 extern "C" int fclose(FILE *fp)
 {
+  NoRace norace_;
   if (enabled && fp != nullptr)
     {
       const int fd = fileno(fp);
@@ -361,6 +408,7 @@ extern "C" int fclose(FILE *fp)
 
 extern "C" ssize_t read(int fd, void *buf, size_t count)
 {
+  NoRace norace_;
   if (enabled)
     {
       auto it = open_files().find(fd);
@@ -438,6 +486,7 @@ namespace
 
 extern "C" ssize_t write(int fd, const void *buf, size_t count)
 {
+  NoRace norace_;
   if (enabled)
     {
       const long r = write_faults(fd, count);
@@ -449,6 +498,7 @@ extern "C" ssize_t write(int fd, const void *buf, size_t count)
 
 extern "C" ssize_t writev(int fd, const struct iovec *iov, int iovcnt)
 {
+  NoRace norace_;
   if (enabled && open_files().count(fd) != 0)
     {
       size_t total = 0;
@@ -477,4 +527,49 @@ extern "C" ssize_t writev(int fd, const struct iovec *iov, int iovcnt)
         }
     }
   return syscall(SYS_writev, fd, iov, iovcnt);
+}
+
+// stat() of a simulated path: a regular file of the stored size with a fixed modification time (the simulated
+// disk has no clock; a rewritten file keeps its mtime, like a file rewritten within the same second)
+namespace
+{
+  typedef int (*stat_t)(const char *, struct stat *);
+  int sim_stat(const char *path, struct stat *st)
+  {
+    auto it = disk().find(path);
+    if (it == disk().end())
+      {
+        errno = ENOENT;
+        return -1;
+      }
+    std::memset(st, 0, sizeof(*st));
+    st->st_mode = S_IFREG | 0644;
+    st->st_nlink = 1;
+    st->st_size = static_cast<off_t>(it->second.size());
+    st->st_blksize = 4096;
+    st->st_blocks = static_cast<blkcnt_t>((it->second.size() + 511) / 512);
+    st->st_mtime = 1700000000;
+    st->st_ctime = 1700000000;
+    st->st_atime = 1700000000;
+    return 0;
+  }
+}
+
+extern "C" int stat(const char *path, struct stat *st)
+{
+  NoRace norace_;
+  if (simulated_path(path, false))
+    return sim_stat(path, st);
+  static stat_t real = reinterpret_cast<stat_t>(dlsym(RTLD_NEXT, "stat"));
+  return real ? real(path, st) : -1;
+}
+
+extern "C" int stat64(const char *path, struct stat64 *st)
+{
+  NoRace norace_;
+  if (simulated_path(path, false))
+    return sim_stat(path, reinterpret_cast<struct stat *>(st)); // identical layout on x86-64
+  typedef int (*stat64_t)(const char *, struct stat64 *);
+  static stat64_t real = reinterpret_cast<stat64_t>(dlsym(RTLD_NEXT, "stat64"));
+  return real ? real(path, st) : -1;
 }
